@@ -90,7 +90,28 @@ def gen_sql_value(rng, typ):
     raise ValueError(typ)
 
 
+def bulk_plan(rng):
+    """A batch size above the writer's default (1000) and more rows than that default, with looks on the way: a
+    batch size that gets lost between the caller and the writer shows as a partly visible batch."""
+    fields = ["n", "s"] if "n" in FIELD_TYPES and "s" in FIELD_TYPES else sorted(FIELD_TYPES)[:2]
+    name = "bulk/rows"
+    key = "%s|%s" % (name, ",".join(fields))
+    pool = {key: [name, [[FIELD_TYPES[f], f] for f in fields]]}
+    batch = rng.choice([1200, 1500])
+    ops = []
+    n = rng.choice([1050, 1150])
+    looks = sorted(rng.sample(range(1001, n), 2))
+    for i in range(n):
+        ops.append({"op": "write", "desc": key, "values": [gen_sql_value(rng, FIELD_TYPES[f]) for f in fields]})
+        if i + 1 in looks:
+            ops.append({"op": "observe", "conn": 0})
+    ops.append({"op": "close", "how": "close"})
+    return {"batch": batch, "alt_batch": 1000, "pool": pool, "ops": ops, "mode": "observe", "via": rng.choice(["direct", "uri", "split"]), "dbname": "t.db", "bulk": True}
+
+
 def generate(rng, tier, index):
+    if rng.random() < 0.006:
+        return bulk_plan(rng)
     n_tables = rng.choice([1, 1, 2, 2, 3])
     names = rng.sample(TABLE_NAMES, n_tables)
     fnames = sorted(FIELD_TYPES)
